@@ -88,8 +88,8 @@ theorem mapM_congr_mem {α β : Type} (f g : α → Except Err β) :
       have h2 := mapM_congr_mem f g as (fun b hb => h b (List.mem_cons_of_mem _ hb))
       simp only [List.mapM_cons, h1, h2]
 
-theorem keyOf_agree (salt : String) (names : List String) (env env' : Env) (h : AgreeOn names env env') :
-    keyOf salt names env = keyOf salt names env' := by
+theorem keyOf_agree (pr : Nat → Bool) (salt : String) (names : List String) (env env' : Env) (h : AgreeOn names env env') :
+    keyOf pr salt names env = keyOf pr salt names env' := by
   unfold keyOf
   rw [mapM_congr_mem _ _ names]
   intro n hn
@@ -112,7 +112,7 @@ theorem choiceStage_agree (cfg : RunCfg) (e : Experiment) (env env' : Env) (pop 
   | cons x xs =>
       simp only []
       rw [hlv] at h
-      rw [keyOf_agree _ _ env env' h]
+      rw [keyOf_agree _ _ _ env env' h]
 
 theorem routed_eq_routeResult (cfg : GenCfg) (env : Env) (c : Cond) :
     routed cfg env c = routeResult cfg (specRoute env c) (.error .unroutable) := by
